@@ -273,7 +273,7 @@ WT = WQ + [7, 16, 31, 32, 33, 63, 64, 65, 127, 128, 129, 130]
 
 def bounds(tier):
     return {'width pairs': 'all pairs of %r' % (WQ if tier == 'quick' else WT,), '* and signed_mult': '<= 6x6 quick / 8x8 thorough',
-            'shift amount widths': '1..6', 'slices': 'i,j in {None,-w..w}, k in {None,1,-1,2,-2} for w<=5 (quick: w<=4)',
+            'shift amount widths': '1..6', 'slices': 'i,j in {None,-w..w}, k in {None,1,-1,2,-2} for w<=7 (quick: w<=4)',
             'operand kinds': ['int', 'bool', "w'd k", "w'b k", "w'h k", 'Const', 'Const signed']}
 
 
@@ -294,7 +294,7 @@ def cases(tier, seed):
             out.append({'item': 'reduce', 'wa': wa})
     # python operands on both sides of every operator
     for op in BIN:
-        for wa in ([1, 3, 5] if tier == 'quick' else [1, 2, 3, 5, 8]):
+        for wa in ([1, 3, 5] if tier == 'quick' else [1, 2, 3, 4, 5, 8, 16, 64, 65]):
             if op == '*' and wa > 5:
                 continue
             ks = sorted({0, 1, (1 << wa) - 1, 1 << (wa - 1), (1 << wa) + 1})
@@ -314,7 +314,7 @@ def cases(tier, seed):
                 for side in 'lr':
                     out.append({'item': 'constop', 'op': op, 'wa': wa, 'k': k, 'kind': 'sconst', 'wk': wk, 'side': side})
     # slices with Python index semantics
-    for w in ([1, 2, 3, 4] if tier == 'quick' else [1, 2, 3, 4, 5]):
+    for w in ([1, 2, 3, 4] if tier == 'quick' else [1, 2, 3, 4, 5, 6, 7]):
         for i in range(-w, w):
             out.append({'item': 'slice', 'wa': w, 'sl': i})
         rng = [None] + list(range(-w, w + 1))
